@@ -7,6 +7,7 @@ pub mod c06;
 pub mod c07;
 pub mod c08;
 pub mod c09;
+pub mod c10;
 pub mod c11;
 pub mod c12;
 pub mod c13;
@@ -14,6 +15,8 @@ pub mod c14;
 pub mod c15;
 pub mod c17;
 pub mod c18;
+pub mod c19;
+pub mod c20;
 pub mod fixtures;
 
 use crate::run::PropSpec;
@@ -36,4 +39,5 @@ pub const ALL: &[&PropSpec] = &[
 	&c15::SPEC16,
 	&c17::SPEC,
 	&c18::SPEC,
+	&c19::SPEC,
 ];
